@@ -252,7 +252,9 @@ pub fn run(c: &Ctx) {
     c.set_rule("(a) every single-path call form of the Memfs alphabet (52 forms: all trait methods, builder variants, handles) on every string over a 22-symbol adversarial alphabet (incl. 'İ' and the Kelvin sign, whose lower-case forms have another byte length, and an upper-case letter) ('/', '.', '~', '$', ':', '{', '}', space, a, 2/3/4-byte chars, newline, NUL, '-', '%', '*', backslash, quote) up to length 2 (quick) / 3 (thorough), from a fresh and from a populated instance (links, loop link, dangling link, non-UTF-8 bytes, cwd below root); two-path forms on all pairs of strings up to length 1 plus specials; seeded random arguments (<=64 symbols, 4 KiB names, 2000-deep '..' chains, any u32 mode / id). After EVERY call: no panic, call returned (CPU watchdog), C03 invariants on the dump, and a probe sequence on the same instance (mkdir_p, write_all, read_all, remove_all, exists) succeeds. (b) every public path helper, StringExt/ToStringExt/IteratorExt/PeekableExt/OptionExt function and user:: getter on the same strings (totality only). (c) read handles driven by seek/read scripts with extreme offsets. (d) every program of length 4 (quick) / 5 (thorough) over 15 forms {open write/append handle, write, flush, drop, remove / remove_all / move_p / replace-by-directory / replace-by-link of the handle's file, set_cwd} on the populated instance: handles that outlive their file must neither panic nor hang nor wedge the instance (probe after every step and after the final drops). (e) every call form at the top, middle and bottom of a 60-level directory chain (deeper than the traversal's descriptor cap) that ends in an empty directory and a file. Non-trivial = argument with a multi-byte character or >=2 special symbols; distinct by (function, argument).");
     c.assume("non-UTF-8 OsStr paths are outside the stated domain");
     let max_len = c.tier.pick(2, 3);
-    let strings = all_strings(ALPHA, max_len);
+    let mut strings = all_strings(ALPHA, max_len);
+    // shapes longer than the exhaustive bound that the expansion / protocol scanners slice by computed offsets
+    strings.extend(["${é}", "$é$", "a$日}", "${😀}x", "$é", "${é", "x}$V", "${V}}", "~é", "é~/x", "file://é", "İ://x", "/é/${é}/..", "a/${日本}/b", "$日本/x", "${}", "$$", "${${V}}", "~/${é}", "/tmp/é日/x", "日本語", "/über/änderung"].iter().map(|s| s.to_string()));
     // (a) single-path forms
     par_for(strings.len() as u64, 8, |i| {
         let s = &strings[i as usize];
